@@ -1,6 +1,7 @@
 import FunModel.Sexp
 import FunModel.Dll
 import FunModel.Sll
+import FunModel.SortSeq
 
 /-! Driver for C16/C17: a case is `(seq op ...)` over lists L0.. / stacks S0.. with element handles
     e0.. / item handles i0.. registered in order of appearance. After every op: the op's own result
@@ -28,6 +29,8 @@ def fuel : Nat := 400
 
 def vals (h : Dll.Heap) (xs : List Nat) : String := joinSep "," (xs.map (fun a => toString (h.node a).item))
 def svals (h : Sll.Heap) (xs : List Nat) : String := joinSep "," (xs.map (fun a => toString (h.item a).value))
+
+def itemsOf (h : Dll.Heap) (l : Nat) : List Int := (h.walkFwd l fuel).1.map (fun a => (h.node a).item)
 
 def listIdx (st : St) (s : Sexp) : Option Nat := do
   let a ← s.atom?
@@ -152,14 +155,23 @@ def stepOp (st : St) (op : Sexp) : Option (St × String) :=
     let (h, out) ← st.dh.copy (← listIdx st l)
     pure ({ st with dh := h, lists := st.lists.push out }, s!"L{st.lists.size}")
   | .list [.atom "sortm", l, .atom c] => do
-    let h ← st.dh.sortMerge (ltOf c) (← listIdx st l)
-    pure ({ st with dh := h }, "ok")
+    let li ← listIdx st l
+    let before := itemsOf (st.dh.lazySetup li) li
+    let h ← st.dh.sortMerge (ltOf c) li
+    -- cross-check of the two Lean models (pointer level vs sequence level)
+    let okx := itemsOf (h.lazySetup li) li == SortSeq.sortMerge (ltOf c) before
+    pure ({ st with dh := h }, if okx then "ok" else "MODEL-MISMATCH")
   | .list [.atom "sortq", l, .atom c] => do
-    let h ← st.dh.sortQuick (ltOf c) (← listIdx st l)
-    pure ({ st with dh := h }, "ok")
+    let li ← listIdx st l
+    let before := itemsOf (st.dh.lazySetup li) li
+    let h ← st.dh.sortQuick (ltOf c) li
+    let okx := itemsOf (h.lazySetup li) li == SortSeq.sortQuick (ltOf c) before
+    pure ({ st with dh := h }, if okx then "ok" else "MODEL-MISMATCH")
   | .list [.atom "sorted", l, .atom c] => do
-    let r ← st.dh.isSorted (ltOf c) (← listIdx st l)
-    pure (st, bit r)
+    let li ← listIdx st l
+    let r ← st.dh.isSorted (ltOf c) li
+    let okx := r == SortSeq.isSorted (ltOf c) (itemsOf (st.dh.lazySetup li) li)
+    pure (st, if okx then bit r else "MODEL-MISMATCH")
   | .list [.atom "iter", l] => do
     let li ← listIdx st l
     let h := st.dh.lazySetup li
@@ -199,8 +211,10 @@ def stepOp (st : St) (op : Sexp) : Option (St × String) :=
     some ({ st with dh := h.lazySetup l, heapList := some l, heapCmp := c }, "ok")
   | .list [.atom "hpush", v] => do
     let l ← st.heapList
+    let before := itemsOf st.dh l
     let h ← st.dh.heapPush (ltOf st.heapCmp) l (← v.int?)
-    pure ({ st with dh := h }, "ok")
+    let okx := itemsOf h l == SortSeq.heapInsert (ltOf st.heapCmp) (← v.int?) before
+    pure ({ st with dh := h }, if okx then "ok" else "MODEL-MISMATCH")
   | .list [.atom "hpop"] => do
     let l ← st.heapList
     let (h, e) ← st.dh.popFront l
